@@ -242,10 +242,58 @@ def check_clip(mido, specs, acc):
                               f'{data.hex()}: {e!r}', case)
 
 
+def check_clip_sysex(mido, acc):
+    """A sysex payload byte above 127 (0x80, 0xFF; 0xF7 only where it is not
+    the terminator): clip=False raises, clip=True loads the payload with 127
+    at exactly that position."""
+    for payload in ((5,), (1, 2, 3), tuple(range(10))):
+        for pos in range(len(payload)):
+            for bad in (0x80, 0xFF, 0xF7):
+                if bad == 0xF7 and pos == len(payload) - 1:
+                    continue
+                p = list(payload)
+                p[pos] = bad
+                ev = [(1, ('ch', 0x90, (60, 64))), (2, ('sysex', tuple(p))),
+                      (0, ('ch', 0x80, (60, 0))), (0, smf.EOT)]
+                data = smf.encode_file(1, 480, [ev])
+                acc.evals += 1
+                acc.nontrivial += 1
+                case = {'kind': 'clip-sysex', 'payload': p, 'hex': data.hex()}
+                try:
+                    got = load_sigs(mido, data)
+                    acc.violation('clip/sysex/off-accepted',
+                                  f'{data.hex()}: sysex payload byte {bad:#x} '
+                                  f'accepted with clip=False: {short(got)}',
+                                  case)
+                except Exception:
+                    pass
+                want = list(p)
+                want[pos] = 127
+                for kw in ({'clip': True}, {'clip': True, 'debug': True}):
+                    try:
+                        with contextlib.redirect_stdout(io.StringIO()):
+                            f = load_bytes(mido, data, **kw)
+                        sx = [m for m in f.tracks[0] if m.type == 'sysex']
+                        if len(f.tracks[0]) != 4 or len(sx) != 1 or \
+                                tuple(sx[0].data) != tuple(want) or \
+                                sx[0].time != 2:
+                            acc.violation('clip/sysex/on-differs',
+                                          f'{data.hex()} with {kw}: loaded '
+                                          f'{short(track_sigs(f.tracks[0]), 300)}'
+                                          f'; expected sysex data {want}', case)
+                    except Exception as e:
+                        acc.violation(f'clip/sysex/on-raises/{type(e).__name__}',
+                                      f'{data.hex()} with {kw}: {e!r}', case)
+
+
 def worker(shard):
     mido = common.import_mido()
     acc = Acc()
     kind = shard[0]
+    if kind == 'clip-sysex':
+        check_clip_sysex(mido, acc)
+        acc.sample({'clip_sysex_payloads': [1, 3, 10]}, cap=1)
+        return acc
     if kind == 'write':
         type_, first, n = shard[1], shard[2], shard[3]
         i = 0
@@ -336,6 +384,7 @@ def run():
         shards += [('read', 0, s, nr, dev) for s in SYMBOLS]
     shards += [('clip', s) for s in ('on0', 'off0', 'cc0', 'prog', 'pitch')]
     shards += [('long', fam) for fam in ('sysexN', 'textN', 'unkN')]
+    shards.append(('clip-sysex',))
     shards += [('databounds', st) for st in (0x80, 0x8F, 0x90, 0x9F, 0xA3,
                                              0xB0, 0xBF, 0xC0, 0xCF, 0xD5,
                                              0xE0, 0xEF)]
@@ -376,6 +425,9 @@ def run():
 def check_case(case):
     mido = common.import_mido()
     acc = Acc()
+    if case['kind'] == 'clip-sysex':
+        check_clip_sysex(mido, acc)
+        return [(k, v[0][1]) for k, v in acc.viol.items()]
     specs = [[tuple(x) for x in sp] for sp in case['tracks']]
     if case['kind'] == 'write':
         check_write(mido, case['type'], case['tpb'], specs, acc)
